@@ -381,9 +381,12 @@ func run(r *harness.Run) {
 		}
 	}
 	if r.Thorough() {
-		for i := 1; i < len(tamperNames); i++ {
-			for j := i + 1; j < len(tamperNames); j++ {
-				for k := j + 1; k < len(tamperNames); k++ {
+		// triples: among the first fifteen tamperings (the later ones - a key sent twice, case variants, escaped spellings -
+		// are variations of "an extra top-level key" and take part in the singles and pairs)
+		nTriple := 15
+		for i := 1; i < nTriple; i++ {
+			for j := i + 1; j < nTriple; j++ {
+				for k := j + 1; k < nTriple; k++ {
 					sets = append(sets, []string{tamperNames[i], tamperNames[j], tamperNames[k]})
 				}
 			}
